@@ -1,0 +1,273 @@
+//go:build verif
+// +build verif
+
+package bfe_tls
+
+// Hooks for the out-of-tree verification harness of property C45 (build tag verif, add-only):
+// marshal / unmarshal of the handshake messages and of sessionState, rendered canonically.
+
+import (
+	"encoding/hex"
+	"strings"
+)
+
+func verifC45Hex(b []byte) string {
+	if len(b) == 0 {
+		return "-"
+	}
+	return hex.EncodeToString(b)
+}
+
+func verifC45HexList(l [][]byte) string {
+	if len(l) == 0 {
+		return "none"
+	}
+	s := make([]string, len(l))
+	for i, c := range l {
+		s[i] = verifC45Hex(c)
+	}
+	return strings.Join(s, ",")
+}
+
+// VerifC45New builds a message of the given kind from its fields (f: byte-string fields, flag/b0/b1: small fields).
+func verifC45New(kind string, f [][]byte) handshakeMessage {
+	get := func(i int) []byte {
+		if i < len(f) {
+			return f[i]
+		}
+		return nil
+	}
+	b0 := func(i int) byte {
+		if x := get(i); len(x) > 0 {
+			return x[0]
+		}
+		return 0
+	}
+	switch kind {
+	case "fin":
+		return &finishedMsg{verifyData: get(0)}
+	case "ske":
+		return &serverKeyExchangeMsg{key: get(0)}
+	case "cke":
+		return &clientKeyExchangeMsg{ciphertext: get(0)}
+	case "shd":
+		return &serverHelloDoneMsg{}
+	case "cst":
+		return &certificateStatusMsg{statusType: b0(0), response: get(1)}
+	case "npn":
+		return &nextProtoMsg{proto: string(get(0))}
+	case "nst":
+		return &newSessionTicketMsg{ticket: get(0)}
+	case "cv0":
+		return &certificateVerifyMsg{signature: get(0)}
+	case "cv1":
+		return &certificateVerifyMsg{hasSignatureAndHash: true,
+			signatureAndHash: signatureAndHash{hash: b0(0), signature: b0(1)}, signature: get(2)}
+	case "crt":
+		return &certificateMsg{certificates: f}
+	}
+	return nil
+}
+
+func verifC45Empty(kind string) handshakeMessage {
+	switch kind {
+	case "fin":
+		return &finishedMsg{}
+	case "ske":
+		return &serverKeyExchangeMsg{}
+	case "cke":
+		return &clientKeyExchangeMsg{}
+	case "shd":
+		return &serverHelloDoneMsg{}
+	case "cst":
+		return &certificateStatusMsg{}
+	case "npn":
+		return &nextProtoMsg{}
+	case "nst":
+		return &newSessionTicketMsg{}
+	case "cv0":
+		return &certificateVerifyMsg{}
+	case "cv1":
+		return &certificateVerifyMsg{hasSignatureAndHash: true}
+	case "crt":
+		return &certificateMsg{}
+	case "chl":
+		return &clientHelloMsg{}
+	case "shl":
+		return &serverHelloMsg{}
+	case "cr0":
+		return &certificateRequestMsg{}
+	case "cr1":
+		return &certificateRequestMsg{hasSignatureAndHash: true}
+	}
+	return nil
+}
+
+func verifC45Render(m handshakeMessage) string {
+	switch x := m.(type) {
+	case *finishedMsg:
+		return verifC45Hex(x.verifyData)
+	case *serverKeyExchangeMsg:
+		return verifC45Hex(x.key)
+	case *clientKeyExchangeMsg:
+		return verifC45Hex(x.ciphertext)
+	case *serverHelloDoneMsg:
+		return "."
+	case *certificateStatusMsg:
+		return verifC45Hex([]byte{x.statusType}) + ":" + verifC45Hex(x.response)
+	case *nextProtoMsg:
+		return verifC45Hex([]byte(x.proto))
+	case *newSessionTicketMsg:
+		return verifC45Hex(x.ticket)
+	case *certificateVerifyMsg:
+		if x.hasSignatureAndHash {
+			return verifC45Hex([]byte{x.signatureAndHash.hash}) + ":" + verifC45Hex([]byte{x.signatureAndHash.signature}) + ":" + verifC45Hex(x.signature)
+		}
+		return verifC45Hex(x.signature)
+	case *certificateMsg:
+		return verifC45HexList(x.certificates)
+	}
+	return "?"
+}
+
+// VerifC45Marshal marshals a message built from fields.
+func VerifC45Marshal(kind string, f [][]byte) ([]byte, bool) {
+	m := verifC45New(kind, f)
+	if m == nil {
+		return nil, false
+	}
+	return m.marshal(), true
+}
+
+// VerifC45Unmarshal runs the real unmarshal of the given kind on data (a private copy) and renders
+// the parsed fields: "ok <fields>" or "rej".  Kinds without a field rendering answer "ok".
+func VerifC45Unmarshal(kind string, data []byte) string {
+	m := verifC45Empty(kind)
+	if kind == "sst" {
+		s := &sessionState{}
+		if !s.unmarshal(append([]byte(nil), data...)) {
+			return "rej"
+		}
+		// re-marshal must reproduce the input prefix that was consumed (canonical form)
+		return "ok"
+	}
+	if m == nil {
+		return "bad-kind"
+	}
+	if !m.unmarshal(append([]byte(nil), data...)) {
+		return "rej"
+	}
+	r := verifC45Render(m)
+	if r == "?" {
+		return "ok"
+	}
+	return "ok " + r
+}
+
+// VerifC45Reparse: for the kinds that are only exercised (clientHello, serverHello, certificateRequest,
+// sessionState): unmarshal data; if accepted, marshal a field-wise copy again and parse that; the two
+// parsed values must be equal ("ok same"), else "ok DIFF".
+func VerifC45Reparse(kind string, data []byte) string {
+	d := append([]byte(nil), data...)
+	switch kind {
+	case "chl":
+		m := &clientHelloMsg{}
+		if !m.unmarshal(d) {
+			return "rej"
+		}
+		c := *m
+		c.raw = nil
+		m2 := &clientHelloMsg{}
+		if !m2.unmarshal(append([]byte(nil), c.marshal()...)) {
+			return "ok REJECTS-OWN"
+		}
+		m.raw, m2.raw = nil, nil
+		if !m.equal(m2) {
+			return "ok DIFF"
+		}
+		return "ok same"
+	case "shl":
+		m := &serverHelloMsg{}
+		if !m.unmarshal(d) {
+			return "rej"
+		}
+		c := *m
+		c.raw = nil
+		m2 := &serverHelloMsg{}
+		if !m2.unmarshal(append([]byte(nil), c.marshal()...)) {
+			return "ok REJECTS-OWN"
+		}
+		m.raw, m2.raw = nil, nil
+		if !m.equal(m2) {
+			return "ok DIFF"
+		}
+		return "ok same"
+	case "cr0", "cr1":
+		m := &certificateRequestMsg{hasSignatureAndHash: kind == "cr1"}
+		if !m.unmarshal(d) {
+			return "rej"
+		}
+		c := *m
+		c.raw = nil
+		m2 := &certificateRequestMsg{hasSignatureAndHash: kind == "cr1"}
+		if !m2.unmarshal(append([]byte(nil), c.marshal()...)) {
+			return "ok REJECTS-OWN"
+		}
+		m.raw, m2.raw = nil, nil
+		if !m.equal(m2) {
+			return "ok DIFF"
+		}
+		return "ok same"
+	case "sst":
+		s := &sessionState{}
+		if !s.unmarshal(d) {
+			return "rej"
+		}
+		s2 := &sessionState{}
+		if !s2.unmarshal(s.marshal()) {
+			return "ok REJECTS-OWN"
+		}
+		if !s.equal(s2) {
+			return "ok DIFF"
+		}
+		return "ok same"
+	}
+	return "bad-kind"
+}
+
+// VerifC45Hello marshals a clientHello / serverHello built from the given fields (used to seed the
+// exercised-only kinds with well-formed messages).
+func VerifC45ClientHello(vers uint16, random, sessionId []byte, suites []uint16, comp []byte, npn bool, sni string,
+	ocsp bool, curves []uint16, points []byte, ticketOK bool, ticket []byte, sigs []byte, reneg bool, alpn []string) []byte {
+	m := &clientHelloMsg{vers: vers, random: random, sessionId: sessionId, cipherSuites: suites, compressionMethods: comp,
+		nextProtoNeg: npn, serverName: sni, ocspStapling: ocsp, supportedPoints: points, ticketSupported: ticketOK,
+		sessionTicket: ticket, secureRenegotiation: reneg, alpnProtocols: alpn}
+	for _, c := range curves {
+		m.supportedCurves = append(m.supportedCurves, CurveID(c))
+	}
+	for i := 0; i+1 < len(sigs); i += 2 {
+		m.signatureAndHashes = append(m.signatureAndHashes, signatureAndHash{sigs[i], sigs[i+1]})
+	}
+	return m.marshal()
+}
+
+func VerifC45ServerHello(vers uint16, random, sessionId []byte, suite uint16, comp byte, npn bool, protos []string,
+	ocsp, ticketOK, reneg bool, alpn string) []byte {
+	m := &serverHelloMsg{vers: vers, random: random, sessionId: sessionId, cipherSuite: suite, compressionMethod: comp,
+		nextProtoNeg: npn, nextProtos: protos, ocspStapling: ocsp, ticketSupported: ticketOK, secureRenegotiation: reneg,
+		alpnProtocol: alpn}
+	return m.marshal()
+}
+
+func VerifC45CertificateRequest(has bool, types []byte, sigs []byte, cas [][]byte) []byte {
+	m := &certificateRequestMsg{hasSignatureAndHash: has, certificateTypes: types, certificateAuthorities: cas}
+	for i := 0; i+1 < len(sigs); i += 2 {
+		m.signatureAndHashes = append(m.signatureAndHashes, signatureAndHash{sigs[i], sigs[i+1]})
+	}
+	return m.marshal()
+}
+
+func VerifC45SessionState(vers, suite uint16, master []byte, certs [][]byte) []byte {
+	s := &sessionState{vers: vers, cipherSuite: suite, masterSecret: master, certificates: certs}
+	return s.marshal()
+}
